@@ -107,7 +107,13 @@ class C01Ledger(Monitor):
                              and not getattr(o, 'hole_cards', None)), None)
                 tag = ':nobody_left' if type(last).__name__ == 'HoleCardsShowingOrMucking' else \
                     f':nobody_left_after_{type(last).__name__}'
-                if type(last).__name__ == 'HandKilling':
+                if type(last).__name__ == 'HandKilling' and (
+                        any(not c for row in s.board_cards for c in row)
+                        or any(not c for o in s.operations if type(o).__name__ == 'HoleDealing' for c in o.cards)):
+                    # cards of unknown rank were dealt (to the board, or to a player): no hand can be read, everybody
+                    # is flagged and killed - finding F12e
+                    tag = ':nobody_left_unknown_cards'
+                elif type(last).__name__ == 'HandKilling':
                     # everybody who was killed had tabled only part of his hand (cash game): he kept the rest to
                     # himself, which leaves him without a hand like a muck does - finding F12d, not F24's lone survivor
                     killed = [o.player_index for o in s.operations if type(o).__name__ == 'HandKilling']
